@@ -330,6 +330,9 @@ def run(ctx: Ctx):
     # ------------------------------------------------------------- FRESH: history independence of returned objects (spec/Fresh.tla)
     from vf import fresh
     fresh.step(ctx, "C17")
+    # ------------------------------------------------------------- VIEW: views after every edit history (spec/View.tla)
+    from vf import view
+    view.step(ctx, "C17")
     return ctx.finish(rule=(
         "every transition of the reference mapping over keys {a,A,b[,B]} x values {1,2} (ops: new/update with <=2 pairs "
         "+ <=1 keyword, get/set/del/contains/get/pop/setdefault/copy/|/|=/==/keys/len/clear/popitem) replayed on 5 classes; "
